@@ -139,6 +139,7 @@ func runC12(c *engine.Ctx, tier string) {
 	c12Narrowing(c, d)
 	c12GoBeforeCheck(c)
 	c12StreamTypestate(c)
+	c12RelayAnswered(c)
 	// C12.9: cancelling a request (every Set/rollback/watch handler leaves its store watch that way) must
 	// not be able to panic the store: no close of a channel another goroutine may still send on
 	for _, rel := range storePkgs {
@@ -1075,14 +1076,23 @@ func unquotedParts(s string) []string {
 // ---- C12.6: NaN
 
 func c12NaN(c *engine.Ctx, d *c12Data) {
-	o := c.Custom("C12.6", "K-guard(NaN)", "a float taken from a request reaches NewTypedValueFloat (big.NewFloat) only under a failed math.IsNaN test of the same value",
-		"big.NewFloat panics on NaN, and a float_val of NaN is decodable")
-	defer o.Done(1)
+	o := c.Custom("C12.6", "K-guard(NaN, Inf)", "a float taken from a request (a FloatVal of a TypedValue) reaches NewTypedValueFloat, or is appended to the list NewLeafListFloatTv is built from, only under failed math.IsNaN and math.IsInf tests of the same value",
+		"big.NewFloat panics on NaN; NaN and the infinities cannot be rendered in the JSON document of the candidate configuration, the validation step then errors for ever and the Set is never answered")
+	defer o.Done(2)
 	seen := map[string]bool{}
 	for _, p := range d.paths {
 		for i := range p.Events {
 			e := &p.Events[i]
-			if e.Kind != engine.EvCall || !strings.HasSuffix(e.CalleeName, ".NewTypedValueFloat") || len(e.Args) != 1 {
+			if e.Kind != engine.EvCall {
+				continue
+			}
+			val := ""
+			switch {
+			case strings.HasSuffix(e.CalleeName, ".NewTypedValueFloat") && len(e.Args) == 1:
+				val = e.Args[0]
+			case e.CalleeName == "append" && len(e.Args) == 2 && strings.HasSuffix(e.Args[1], ".(*gnmi.TypedValue_FloatVal).FloatVal"):
+				val = e.Args[1]
+			default:
 				continue
 			}
 			if strings.HasPrefix(p.Root.Name(), "utils/v3/") {
@@ -1091,18 +1101,29 @@ func c12NaN(c *engine.Ctx, d *c12Data) {
 			k := c.P.Pos(e.Pos)
 			if !seen[k] {
 				seen[k] = true
-				o.Site(k + " " + e.CalleeName + "(" + e.Args[0] + ") in " + p.Root.Name())
+				o.Site(k + " " + e.CalleeName + "(" + val + ") in " + p.Root.Name())
 			}
 			o.Eval(1)
-			ok := false
+			f64 := val
+			if !strings.HasPrefix(f64, "float64(") {
+				f64 = "float64(" + val + ")"
+			}
+			nan, inf := false, false
 			for _, l := range engine.CondsBefore(p, i) {
-				if l.L == "math.IsNaN("+e.Args[0]+")" && l.R == "true" && l.Mask == 5 {
-					ok = true
+				if (l.L == "math.IsNaN("+val+")" || l.L == "math.IsNaN("+f64+")") && l.R == "true" && l.Mask == 5 {
+					nan = true
+				}
+				if (l.L == "math.IsInf("+val+",0)" || l.L == "math.IsInf("+f64+",0)") && l.R == "true" && l.Mask == 5 {
+					inf = true
 				}
 			}
-			if !ok {
-				o.Fail(&engine.Violation{Key: p.Root.Name() + "|" + e.CalleeName + " without NaN test", Pos: k, Func: p.Root.Name(),
-					Msg:   e.CalleeName + "(" + e.Args[0] + ") is reached without !math.IsNaN(" + e.Args[0] + ")",
+			if !nan || !inf {
+				what := "NaN"
+				if nan {
+					what = "Inf"
+				}
+				o.Fail(&engine.Violation{Key: p.Root.Name() + "|" + e.CalleeName + " without " + what + " test", Pos: k, Func: p.Root.Name(),
+					Msg:   "the request float " + c.Render(val) + " is used (" + e.CalleeName + ") without a failed math.Is" + what + " test",
 					Found: engine.LitsString(engine.CondsBefore(p, i))})
 			}
 		}
@@ -1575,5 +1596,22 @@ func c12StreamTypestate(c *engine.Ctx) {
 				}
 			}
 		}
+	}
+}
+
+// c12RelayAnswered: C12.13. "is answered with a response or a gRPC status": a subscription or poll that
+// cannot be relayed to its target ends the RPC with that error.
+func c12RelayAnswered(c *engine.Ctx) {
+	ps, err := c.A.PathsOpt(pkgNbGnmi, engine.PathOpts{Roots: []string{".Server.processSubscribeRequest"}, NoInline: true})
+	if err != nil || len(ps) == 0 {
+		o := c.Custom("C12.13", "load", "paths of processSubscribeRequest", "")
+		o.Undecided("processSubscribeRequest", fmt.Sprintf("no paths: %v", err))
+		o.Done(0)
+		return
+	}
+	for i, callee := range []string{"northbound/gnmi/v2.Server.sendSubscriptionRequest", "northbound/gnmi/v2.Server.sendPollRequest"} {
+		c.Outcome(engine.Outcome{ID: fmt.Sprintf("C12.13%c", 'a'+i), Pkg: pkgNbGnmi, Min: 1, PathsOverride: ps,
+			When: "#everFailed(" + callee + ")", Returns: "err!=nil",
+			Why: "a subscription or poll for an unknown or unconnected target is answered with the error of " + callee + ", not with silence"})
 	}
 }
